@@ -287,6 +287,12 @@ def exec_c06(cfg, devs):
         # a user stops issuing requests once the library has *told* it that the link is gone (not before: a request can
         # race with the error path)
         cf.disconnected.add_callback(lambda uri: info.__setitem__('told', True))
+        # windows of the dispatcher handling a memory packet and of the memory subsystem's teardown (observers placed
+        # around the library's own callbacks: first / last in the Callers and in the dispatcher's table)
+        cf.packet_received.add_callback(lambda pk: ex.log('disp_begin') if pk.port == 4 else None)
+        cf.add_port_callback(4, lambda pk: ex.log('disp_end'))
+        cf.disconnected.callbacks.insert(0, lambda uri: ex.log('td_begin'))
+        cf.disconnected.add_callback(lambda uri: ex.log('td_end'))
 
         def issue(i, kind, mi, addr, ln):
             ex.log('op', i, kind)
@@ -440,10 +446,30 @@ def _judge(p, cfg, devs, ex, info, dev, errs):
     for i, a in enumerate(acc):
         if isinstance(a, Exception):
             viol('op_raised:%s:%s' % (ops[i][0], type(a).__name__), 'operation %d %r raised %r' % (i, ops[i], a))
+    # did the teardown of a lost link (Memory._disconnected, on the thread that reports the error) overlap the dispatcher's
+    # handling of a memory packet?  (known finding: neither excludes the other)
+    in_disp = in_td = False
+    overlap = ''
+    for e in ex.events:
+        if e[1] == 'disp_begin':
+            in_disp = True
+        elif e[1] == 'disp_end':
+            in_disp = False
+        elif e[1] == 'td_begin':
+            in_td = True
+        elif e[1] == 'td_end':
+            in_td = False
+        if in_disp and in_td:
+            overlap = ':teardown_overlaps_dispatch'
     want = {}         # (kind, mem id, addr) -> number of notifications expected
+    refused = {}      # requests the library refused (returned False): the statement is about requests it took on, so a
+    #                   refusal that is *also* reported through one failure notification is accepted (never a success)
     superseded = set()
     queue = {0: [], 1: []}
     for i, (kind, mi, addr, ln) in enumerate(ops):
+        if i < len(acc) and acc[i] is False:
+            kk = ('read' if kind == 'r' else 'write', MEM_IDS[mi], addr)
+            refused[kk] = refused.get(kk, 0) + 1
         if i >= len(acc) or acc[i] is not True:
             continue
         if kind == 'r':
@@ -472,8 +498,11 @@ def _judge(p, cfg, devs, ex, info, dev, errs):
         w = want.get(k, 0)
         g = got.get(k, 0)
         extra_ok = may_be_superseded.get(k, 0)
+        nfail = sum(1 for e in evs if (e[0].split('_')[0], e[1], e[2]) == k and e[0].endswith('_fail'))
+        if w == 0 and refused.get(k) and g <= refused[k] and nfail == g:
+            continue
         if not (w <= g <= w + extra_ok):
-            detail = ''
+            detail = overlap
             if k[0] == 'write' and g < w:
                 # did the device receive the whole write?
                 ln = [o[3] for o in ops if o[0] in ('w', 'wf') and MEM_IDS[o[1]] == k[1] and o[2] == k[2]]
@@ -483,7 +512,7 @@ def _judge(p, cfg, devs, ex, info, dev, errs):
                     covered.update(range(a, a + len(d)))
                 full = bool(ln) and all(a in covered for a in range(k[2], k[2] + ln[0])) and (ln[0] > 0 or any(
                     a == k[2] for a, d in sm.writes))
-                detail = ':completed_on_device' if full else ':incomplete_on_device'
+                detail = (':completed_on_device' if full else ':incomplete_on_device') + overlap
             viol('notification_count:%s:got%d_want%d%s' % (k[0], g, w, detail),
                  'request %s mem %d addr %#x: %d completion notifications, expected %d; all notifications: %r'
                  % (k[0], k[1], k[2], g, w, [e[:3] for e in evs]))
@@ -593,6 +622,12 @@ def _fires(label, alt, what):
     return any(a == alt and nm == what for a, nm in getattr(label, 'lazy', ()))
 
 
+def _user2_filter(devs, i, alt, label):
+    if not devs:
+        return _fires(label, alt, 'user2.op')
+    return i <= devs[0][0] + 25
+
+
 def _fault_user_filter(devs, i, alt, label):
     if not devs:
         return _fires(label, alt, 'env.linkfault')
@@ -632,6 +667,14 @@ def run(ck):
           {'name': 'fault+user2:r0@0+21,w0@40+26', 'ops': (('r', 0, 0, 21), ('w', 0, 40, 26)), 'fault': True, 'second_user': 1.3}]
     r4 = explore(ck, exec_c06, fu, 2, child_filter=_fault_user_filter, max_execs=3000000)
     ck.note('fault_then_second_user', r4)
+    # two users at line level: the second user's request is issued at every line of the first one's call (and of the
+    # handlers), for reads, writes and a mix on the same memory
+    two = [{'name': 'two_users:lines:' + ','.join('%s%d@%d+%d' % o for o in ops), 'ops': ops, 'fault': False, 'lines': True,
+            'second_user': 1.3}
+           for ops in ((('r', 0, 0, 21), ('r', 0, 40, 21)), (('w', 0, 0, 26), ('w', 0, 40, 26)), (('w', 0, 0, 26), ('r', 0, 0, 26)),
+                       (('r', 0, 0, 21), ('wf', 0, 40, 26)))]
+    r5 = explore(ck, exec_c06, two, 1 if ck.quick else 2, child_filter=_user2_filter, max_execs=3000000)
+    ck.note('two_users_line_level', r5)
     if not ck.quick:
         deep = [c for c in cs if len(c['ops']) >= 2][:6] + [c for c in cs if len(c['ops']) == 1 and c['ops'][0][3] in (21, 26)]
         r2 = explore(ck, exec_c06, [dict(c, name=c['name'] + ':2dev', settle=4.6) for c in deep], 2, max_execs=2000000)
